@@ -265,6 +265,23 @@ pub enum Op {
     Surface(SurfKind, i32, i32, [i32; 4], [i32; 2]),
     /// Path::flatten(tol) + Path::contains_point(tol, x, y) + Path::transform(current CTM)
     Query(PathSpec, f32, f32, f32),
+    /// draw_text(font, point size, text (no blanks), start x, start y) with the test font
+    Text(f32, String, f32, f32, SrcSpec, Opts),
+}
+
+/// the font the text calls are driven with: the first of a fixed list of files that loads
+pub const FONT_FILES: [&str; 3] = ["/usr/share/fonts/truetype/dejavu/DejaVuSans.ttf", "/usr/share/fonts/truetype/dejavu/DejaVuSerif.ttf", "/usr/share/fonts/truetype/dejavu/DejaVuSansMono.ttf"];
+
+thread_local! {
+    static FONT: Option<font_kit::font::Font> = FONT_FILES.iter().find_map(|f| font_kit::font::Font::from_path(f, 0).ok());
+}
+
+pub fn with_font<R>(f: impl FnOnce(Option<&font_kit::font::Font>) -> R) -> R {
+    FONT.with(|x| f(x.as_ref()))
+}
+
+pub fn font_available() -> bool {
+    with_font(|f| f.is_some())
 }
 
 #[derive(Clone, Copy, Debug, PartialEq)]
@@ -294,10 +311,11 @@ impl Op {
             Op::Surface(SurfKind::Blend(_), ..) => "blend_surface",
             Op::Surface(SurfKind::Alpha(_), ..) => "blend_surface_with_alpha",
             Op::Query(..) => "path_query",
+            Op::Text(..) => "draw_text",
         }
     }
     pub fn is_draw(&self) -> bool {
-        matches!(self, Op::Fill(..) | Op::FillRect(..) | Op::Stroke(..) | Op::Clear(..) | Op::Mask(..) | Op::DrawImageAt(..) | Op::DrawImageSize(..))
+        matches!(self, Op::Fill(..) | Op::FillRect(..) | Op::Stroke(..) | Op::Clear(..) | Op::Mask(..) | Op::DrawImageAt(..) | Op::DrawImageSize(..) | Op::Text(..))
     }
 }
 
@@ -352,6 +370,11 @@ pub fn exec(dt: &mut DrawTarget, op: &Op) {
             let t = *dt.get_transform();
             let _ = std::hint::black_box(path.transform(&t).ops.len());
         }
+        Op::Text(size, text, x, y, s, o) => with_font(|font| {
+            if let Some(font) = font {
+                s.with(|src| dt.draw_text(font, *size, text, Point::new(*x, *y), src, &o.to()))
+            }
+        }),
     }
 }
 
@@ -491,6 +514,7 @@ impl fmt::Display for Op {
                 write!(f, "surface {} {} {} {} {} {} {} {} {}", ks, sw, sh, r[0], r[1], r[2], r[3], d[0], d[1])
             }
             Op::Query(p, tol, x, y) => write!(f, "path_query {} {} {} {}", p, ff(*tol), ff(*x), ff(*y)),
+            Op::Text(size, text, x, y, s, o) => write!(f, "draw_text {} {} {} {} {} {}", ff(*size), text, ff(*x), ff(*y), s, o),
         }
     }
 }
@@ -735,6 +759,10 @@ pub fn parse_op(s: &str) -> Result<Op, String> {
         "path_query" => {
             need(5)?;
             Ok(Op::Query(parse_path(t[1])?, pf(t[2])?, pf(t[3])?, pf(t[4])?))
+        }
+        "draw_text" => {
+            need(9)?;
+            Ok(Op::Text(pf(t[1])?, t[2].to_string(), pf(t[3])?, pf(t[4])?, parse_src(t[5])?, parse_opts(&t[6..9])?))
         }
         o => Err(format!("unknown op {}", o)),
     }
